@@ -694,6 +694,29 @@ func S14(tier string) *Scenario {
 	return scenFrom("S14-hundred-live-auctions", cfg, pre, bud, al, nil)
 }
 
+// withMalformedBids also offers, on every open auction, bids whose kind is 0 or unknown.
+func (s *Scenario) withMalformedBids() *Scenario {
+	if s.al != nil {
+		s.al.MalformedBids = true
+	}
+	s.Name += "+malformed"
+	return s
+}
+
+// withReimport offers, once per history, a restart of the chain from its own exported state (reversed:
+// also from a file whose bid / allow-list / instalment lists are in the opposite order).
+func (s *Scenario) withReimport(reversed bool) *Scenario {
+	if s.al != nil {
+		s.al.Reimport = 1
+		if reversed {
+			s.al.Reimport = 2
+		}
+	}
+	s.Budget["reimport"] = 1
+	s.Name += "+reimport"
+	return s
+}
+
 // withEntryIDMismatch also offers AddAllowedBidders calls whose entry carries another auction's id.
 func (s *Scenario) withEntryIDMismatch() *Scenario {
 	if s.al != nil {
